@@ -131,6 +131,18 @@ CLAIMED["C11"] = dict(
          "transform round trip is covered by C10's kernels, not here",
     design="§3 C11")
 
+CLAIMED["C10"] = dict(
+    text="(a) exact dispatch logic of the real Trial.suggest_float/int/categorical/_suggest on in-memory and journal storages with arbitrary z3 "
+         "relative/independent/enqueued values: earlier value > fixed value > single point > relative-if-contained > independent, stored == "
+         "returned, stable on repeat, relative values outside the domain never returned. (b) output stages: the real "
+         "_untransform_numerical_param and _SearchSpaceTransform.untransform map every point of the transformed box into the domain - ints "
+         "for unbounded z3-int bounds and ANY real point, plain/log floats through the clamp (nextafter/exp/log uninterpreted monotone), stepped "
+         "floats under the standard floating-point error model (SymF64, sound over-approximation; one linear query set per concrete step) "
+         "followed by the real _contains.",
+    note="stepped floats: |low|<=1000, <=1000 grid points, steps from an explicit list; exp(log(x)) within 4 ulps assumed; the numerics upstream "
+         "of the output stage (TPE/GP/CMA) are only assumed to return a finite number in the box",
+    design="§3 C10")
+
 NOT_APPLICABLE = {
     "C03": "thread/process pre-emption at source-line granularity inside the storage layer cannot be made a symbolic variable over the "
            "real Python code by a solver-based executor; its atomic-step obligations are discharged under C01/C04/C06/C07",
